@@ -53,6 +53,12 @@ structure TS where
   longIters : List (Nat × Nat × List (Bytes × String) × DbIterState) := []   -- id ↦ (sequence, pinned visible map, cursor)
   pinned : List (Nat × List Nat) := []       -- iterator id ↦ table numbers of the version it pins
   gcSinceIterClose : Bool := true
+  repairing : Bool := false                   -- between `repair` and `repaired-state`
+  preRepair : Run := []                       -- every entry the database held before the repair (tables, memtables)
+  rfiles : List (Nat × Nat × Run) := []
+  repairedStale : Bool := false               -- after repair, file numbering disagrees with data age (known finding F3)
+  nRepairs : Nat := 0
+  known : List String := []
   nLongIterOps : Nat := 0
   lastW : List WOp := []
   lastWF : List WOp := []
@@ -136,8 +142,8 @@ def TS.checkInv (t : TS) (what : String) : TS :=
                     maxFiles := max t.maxFiles (allFiles t.st).length,
                     levelsUsed := max t.levelsUsed ((t.st.levels.filter (fun l => !l.isEmpty)).length) }
   match invCheck t.cmp t.st with
-  | none => t
-  | some clause => t.problem s!"MISMATCH[inv:{clause}]" s!"Inv clause {clause} fails after {what}"
+  | none => { t with repairedStale := false }
+  | some clause => if t.repairedStale && clause == "recency" then t else t.problem s!"MISMATCH[inv:{clause}]" s!"Inv clause {clause} fails after {what}"
 
 def TS.doStep (t : TS) (s : Step) (what : String) : TS :=
   let t := if decide (stepOk t.cmp t.st s) then t else t.problem "MISMATCH[step]" s!"stepOk fails for {what}"
@@ -161,7 +167,8 @@ def handleEdit (t : TS) (spec : String) (rc : String) : TS :=
       | none => t.problem "MISMATCH[other]" "edit adds a table whose contents were not dumped"
       | some metas =>
         let addsM := adds.zip metas
-        if !t.isOpen then
+        if t.repairing then t    -- between a repair and the dump that follows, the model state is rebuilt from the dump
+        else if !t.isOpen then
           -- recovery: logs replayed into level-0 tables; nothing may be lost or invented
           if !dels.isEmpty || adds.any (fun a => a.level != 0) then t.problem "MISMATCH[other]" "recovery edit deletes files or adds above level 0"
           else
@@ -201,6 +208,33 @@ def handleVer (t : TS) (lastSeq nextFile logNum immFlag : String) (levels : Stri
       | [_, fs] => parseList parseVerFile fs ","
       | _ => none
     if parsed.any (·.isNone) || parsed.length != 7 then t.problem "MISMATCH[other]" "unparsable ver line"
+    else if t.repairing && t.rfiles.isEmpty then t     -- layout right after a repair: rebuilt from the dump that follows
+    else if t.repairing && !t.rfiles.isEmpty then
+      -- after repair + reopen the model state is rebuilt from what the implementation reports; the property
+      -- oracle compares it with everything that was on disk before
+      let real := parsed.map (·.getD [])
+      let levels : List (List FileMeta) := real.map fun files => files.filterMap fun (n, sz, sk, sp, lk, lp) =>
+        (t.rfiles.find? (fun p => p.1 == n)).map fun (_, _, run) => ({ num := n, size := sz, sk := sk, sp := sp, lk := lk, lp := lp, run := run } : FileMeta)
+      let st' : DbState := { mem := [], imm := none, levels := levels, lastSeq := ls, snaps := [], nextFile := nf }
+      let after := allEntries st'
+      -- the reopen may already have compacted the repaired level 0, so compare what a reader can see: the newest
+      -- version of every key (entries shadowed by newer ones may legitimately be gone)
+      let keys := userKeys t.cmp t.preRepair
+      let lostE := (keys.filter (fun k => view t.cmp after k (2 ^ 62) != view t.cmp t.preRepair k (2 ^ 62))).filterMap
+                     (fun k => newestVisible t.cmp t.preRepair k (2 ^ 62))
+      let newE := after.filter (fun e => !t.preRepair.contains e)
+      -- from here on the reference is what survived: the surviving entries, then the writes made after the repair
+      let t := { t with st := st', repairing := false, logNum := ln, isOpen := true, history := after }
+      let t := if lostE.isEmpty then t else t.problem "VIOLATION[repair]" s!"after repair the newest surviving version of some keys is not what the database shows: [{showRunBrief lostE}]"
+      let t := if newE.isEmpty then t else t.problem "VIOLATION[repair]" s!"repair invented entries: [{showRunBrief newE}]"
+      let maxSeq := after.foldl (fun m e => max m e.seq) 0
+      let t := if ls ≥ maxSeq then t else t.problem "VIOLATION[repair]" s!"after repair the last sequence {ls} is below a sequence on disk {maxSeq}"
+      let t := if (allFiles st').all (fun f => f.num < nf) then t else t.problem "VIOLATION[repair]" s!"after repair next_file_number {nf} is not above every table on disk"
+      -- structural invariant of the repaired state: everything but level-0 recency must hold; recency failing is finding F3
+      match invCheck t.cmp st' with
+      | none => t
+      | some "recency" => { t with repairedStale := true }
+      | some clause => t.problem "VIOLATION[repair]" s!"repaired state violates the level invariant: {clause}"
     else
       let real := parsed.map (·.getD [])
       let model := t.st.levels.map fun files => files.map fun f => (f.num, f.size, f.sk, f.sp, f.lk, f.lp)
@@ -333,7 +367,8 @@ def handleLine (t : TS) (line : String) : TS :=
     else
       let cmp := if c == "cmp=rev" then Cmp.reverse else if c == "cmp=len" then Cmp.lenFirst else Cmp.bytewise
       -- a reopen with nothing replayed still empties the (already empty) memtables
-      { t with cmp := cmp, isOpen := true, everOpened := true, justOpened := true, gcSinceIterClose := true, longIters := [], pinned := [], st := { t.st with snaps := [] } }
+      let st := if t.repairing then { t.st with snaps := [], mem := [], imm := none } else { t.st with snaps := [] }
+      { t with cmp := cmp, isOpen := true, everOpened := true, justOpened := true, gcSinceIterClose := true, longIters := [], pinned := [], st := st }
   | ["close"] => { t with isOpen := false, iter := none }
   | ["switch"] => t.doStep .switchMem "memtable switch"
   | ["w", ops] =>
@@ -345,6 +380,14 @@ def handleLine (t : TS) (line : String) : TS :=
       { t with history := t.history ++ hist, nWrites := t.nWrites + 1, lastW := os }
     | none => t.problem "MISMATCH[other]" "unparsable write"
   | ["werr", rc] => if t.faultMode then { t with nWerr := t.nWerr + 1 } else t.problem "MISMATCH[other]" s!"write failed rc={rc}"
+  | ["repair", _variant, rc] =>
+    let t := { t with nRepairs := t.nRepairs + 1, repairing := true, preRepair := allEntries t.st, rfiles := [] }
+    if rc == "0" then t else t.problem "VIOLATION[repair]" s!"ldb_repair failed rc={rc}"
+  | ["rfile", num, size, entries] =>
+    match num.toNat?, size.toNat?, parseEntries entries with
+    | some n, some sz, some run => { t with rfiles := (n, sz, run) :: t.rfiles, files := (n, sz, run) :: t.files.filter (fun p => p.1 != n) }
+    | _, _, _ => t.problem "MISMATCH[other]" "unparsable rfile dump"
+  | ["repaired-state"] => t    -- the `ver` line that follows rebuilds the model state
   | ["faultmode"] => { t with faultMode := true }
   | ["seq0", n] =>
     match n.toNat? with
@@ -386,9 +429,12 @@ def handleLine (t : TS) (line : String) : TS :=
       let t := { t with nGets := t.nGets + 1 }
       let show_ := fun (o : Option String) => match o with | some v => v | none => "notfound"
       let m := show_ (get t.cmp t.st k s)
-      let o := show_ (view t.cmp t.history k s)
+      let o := show_ (view t.cmp t.history k (if s == t.st.lastSeq then 2 ^ 62 else s))
       if t.faultMode && res.startsWith "err:" then t else
-      let t := if res == o then t else t.problem (if s < t.st.lastSeq then "VIOLATION[snapget]" else "VIOLATION[get]") s!"get {key} at sequence {s} returned {res}; the latest write visible at that sequence is {o}"
+      let t := if res == o then t
+               else if t.repairedStale && res == m then
+                 { t with known := if t.known.contains "F3" then t.known else t.known ++ ["F3"] }
+               else t.problem (if s < t.st.lastSeq then "VIOLATION[snapget]" else "VIOLATION[get]") s!"get {key} at sequence {s} returned {res}; the latest write visible at that sequence is {o}"
       if res == m then t else t.problem "MISMATCH[get]" s!"get {key} at sequence {s}: implementation {res}, model lookup {m}"
     | _, _ => t.problem "MISMATCH[other]" "unparsable get"
   | ["snap", _, seq] =>
@@ -480,4 +526,6 @@ def main : IO Unit := do
   let t ← loop stdin {}
   for p in (t.problems ++ t.io.problems).take 40 do
     IO.println p
-  IO.println s!"done lines={t.lineNo} writes={t.nWrites} gets={t.nGets} iterops={t.nIter} flushes={t.nFlush} compactions={t.nCompact} trivialmoves={t.nTrivial} recoveries={t.nRecover} invchecks={t.nInv} vers={t.nVer} ls={t.nLs} liveiterops={t.nLongIterOps} crashes={t.nCrash} crashes2={t.nCrash2} crashnonempty={t.nCrashNontrivial} jevents={t.nJ} ioevents={t.io.nEvents} edits={t.io.nEdits} conforms={if t.io.mon.ok then 1 else 0} conformsstrict={if t.io.mon.ok && t.io.mon.okDel then 1 else 0} werr={t.nWerr} failedbatches={t.nFailedBatches} maxfiles={t.maxFiles} levelsused={t.levelsUsed} problems={t.problems.length + t.io.problems.length}"
+  for k in t.known do
+    IO.println s!"KNOWN {k}"
+  IO.println s!"done lines={t.lineNo} writes={t.nWrites} gets={t.nGets} iterops={t.nIter} flushes={t.nFlush} compactions={t.nCompact} trivialmoves={t.nTrivial} recoveries={t.nRecover} invchecks={t.nInv} vers={t.nVer} ls={t.nLs} repairs={t.nRepairs} liveiterops={t.nLongIterOps} crashes={t.nCrash} crashes2={t.nCrash2} crashnonempty={t.nCrashNontrivial} jevents={t.nJ} ioevents={t.io.nEvents} edits={t.io.nEdits} conforms={if t.io.mon.ok then 1 else 0} conformsstrict={if t.io.mon.ok && t.io.mon.okDel then 1 else 0} werr={t.nWerr} failedbatches={t.nFailedBatches} maxfiles={t.maxFiles} levelsused={t.levelsUsed} problems={t.problems.length + t.io.problems.length}"
